@@ -87,10 +87,10 @@ theorem signatures_all_in_ast :
       | .func _ _ => s.2.atomicNamesOnly && isRestriction tables s.2 s.2
       | _ => false) = true := by decide +kernel
 
-/-- every registered signature is `flat` (the string-driven restriction check reads it as the grammar does,
-`string_split_agrees_iff_simple`) or is a higher-order signature whose only non-simple arguments are typed
-function tests with simple arguments (fn:for-each, fn:filter, fn:fold-left, array:sort …): for those the
-string splitting of the *registered* text is outside the model (explored on the real code only) -/
+/-- every registered signature is `flat` or is a higher-order signature whose only non-simple arguments are typed
+function tests with simple arguments (fn:for-each, fn:filter, fn:fold-left, array:sort …).  With the split by nesting
+depth (`string_split_eq_ast`) the string-driven code reads both kinds as the grammar does; before fix-c18-6 only the
+flat ones (`string_split_old_agrees_iff_simple`). -/
 theorem signatures_flat_or_hof :
     signatures.all (fun s => s.2.flat || s.2.hof1) = true ∧
     10 ≤ (signatures.filter (fun s => !s.2.flat)).length := by decide +kernel
@@ -235,6 +235,33 @@ theorem f18a_regression :
     isRestriction tables (tyAtom .decimal .star) (tyAtom .integer .one) = true ∧
     isRestriction tables (.func (.cons (tyAtom .int .one) .nil) (tyAtom .decimal .opt))
                          (.func (.cons (tyAtom .integer .one) .nil) (tyAtom .integer .one)) = true := by
+  decide +kernel
+
+/-- finding F18v, the kernel-checked half of the witness: the six signatures `fn:format-date#3/#4`,
+`fn:format-dateTime#3/#4`, `fn:format-time#3/#4` ARE in the registry of the 3.1 parser (registered by `nargs=(2, 5)`;
+XPath has these functions with 2 and 5 parameters only, and every call with 3 or 4 arguments raises XPST0017 — the
+harness half) -/
+theorem f18v_phantom_signatures_registered :
+    ["fn:format-date#3", "fn:format-date#4", "fn:format-dateTime#3", "fn:format-dateTime#4",
+     "fn:format-time#3", "fn:format-time#4"].all (fun k => signatures.any (fun s => s.1 == k)) = true ∧
+    ["fn:format-date#2", "fn:format-date#5"].all (fun k => signatures.any (fun s => s.1 == k)) = true := by
+  decide +kernel
+
+/-- finding F18w, kernel-checked expected answers of the witnesses (`g` = `function($i as xs:int) as xs:int {$i}`):
+`1 instance of (xs:integer)` is true (the parentheses do not change the type); `($g, $g) instance of
+(function(xs:int) as xs:int)*` is true, `() instance of (…)*` is true — so a parameter declared `(function(xs:int) as
+xs:int)*` accepts the empty sequence — `($g, $g) instance of (…)?` is false; whereas the text `function(xs:int) as
+xs:int*` that the declaration was read as (before fix-c18-6) rejects the empty sequence. -/
+theorem f18w_witness :
+    let a : Tys := .cons (tyAtom .int .one) .nil
+    let r : Ty := tyAtom .int .one
+    let g : Item := .func a r
+    instanceOf tables false (tyAtom .integer .one) [.atom tables.intCls] = .ok true ∧
+    instanceOfOwnOcc tables false .star a r [g, g] = .ok true ∧
+    instanceOfOwnOcc tables false .star a r [] = .ok true ∧
+    instanceOfOwnOcc tables false .opt a r [g, g] = .ok false ∧
+    instanceOfOwnOcc tables false .plus a r [g, .atom tables.intCls] = .ok false ∧
+    matchSt tables false true (.func a (tyAtom .int .star)) [] = .ok false := by
   decide +kernel
 
 /-- non-vacuity: the tables are not empty -/
